@@ -15,7 +15,7 @@ import pymemcache.pool as pool_mod
 from pymemcache.client.base import Client, PooledClient
 from pymemcache.pool import ObjectPool
 
-from vmc import runner, sched, stacks
+from vmc import runner, sched, simnet, stacks
 from vmc.ops import preload
 
 PROPERTY = "C08"
@@ -134,10 +134,15 @@ def run_pool(ch, programs, max_size, prefill, granularity):
         o.removed += 1
         removed.append(o)
 
+    stale = prefill == "stale"
+    clock = simnet.Clock()
+    stacks.PROXY.current = clock
     pool = ObjectPool(lambda: Token(log), after_remove=after_remove, max_size=max_size,
-                      lock_generator=lambda: sched.SimLock(s))
-    for _ in range(prefill):  # idle objects already in the pool
+                      lock_generator=lambda: sched.SimLock(s), idle_timeout=10 if stale else 0)
+    for _ in range(1 if stale else prefill):  # idle objects already in the pool
         pool.release(pool.get())
+    if stale:
+        clock.advance(11)  # the idle object has outlived idle_timeout: the next checkout must close it
     holder = {}
 
     def invariant():
@@ -204,6 +209,9 @@ def pool_harnesses(tier):
         for max_size in (1, 2):
             for prefill in (0, 1):
                 hs.append(("H1", progs, max_size, prefill))
+    for progs in two[:4]:
+        for max_size in (1, 2):
+            hs.append(("H1", progs, max_size, "stale"))
     three = [("get-release", "get-destroy", "clear"), ("with-raises", "get-release", "clear"),
              ("get-destroy", "clear", "clear"), ("get-release", "get-release", "get-destroy")]
     for progs in three:
